@@ -55,6 +55,10 @@ def cases(tier, rng):
         nr, nc = rng.randint(1, 8), rng.randint(1, 8)
         if nr * nc < 2:
             nc = 2
+        if rng.random() < 0.06:
+            # rasters with more than 256 cells: cell numbers then exceed every code value (247, 255) and every small sentinel
+            # (round-6 seed: the LDD nodata code 255 used as "off the raster" hid the real cell 255)
+            nr, nc = rng.choice([(16, 17), (17, 16), (13, 21), (9, 30), (33, 8), (2, 140)])
         n = nr * nc
         fmt = rng.choice([0, 0, 1, 1, 2])
         req = rng.choice([fmt, fmt, 3, 3, rng.randint(0, 2)])
